@@ -1,0 +1,94 @@
+//go:build verif
+
+// Contracts for the govc verifier (see /verif/DESIGN.md). Comment-only file.
+package frozenfunds
+
+//@ # ---------------------------------------------------------------- abstract view of the frozen-funds module
+//@ # ffModel(f, h): the bucket of funds that mature at height h (nil: none). The lazily loading getter that defines it
+//@ # in terms of cache-or-tree is ASSUMED (representation axiom); buckets of different heights are different objects.
+//@ ghost ffModel(f *FrozenFunds, h int) *Model
+//@ ghost ffCache() int
+//@ ghost ffDirtyMarks() int
+
+//@ func (*FrozenFunds).get
+//@   trusted
+//@   ensures result == ffModel(f, height)
+//@   ensures result != nil ==> result.height == height
+//@   modifies ffCache
+
+//@ func (*FrozenFunds).markDirty
+//@   trusted
+//@   modifies ffDirtyMarks
+//@ func field Model.markDirty
+//@   modifies ffDirtyMarks
+
+//@ # anyH/anyI: an arbitrary but fixed height and index (skolem constants): a clause stated for them holds for every height and index
+//@ ghost anyH() int
+//@ ghost anyI() int
+
+//@ # C18: every fund unbonding from the punished candidate in [fromHeight, toHeight] loses the rounded-up 5 %, all other
+//@ # funds and all other fields (owner, coin, candidate, move target) stay as they are; C16: a slashed move stays a move
+//@ func (*FrozenFunds).PunishFrozenFundsWithID
+//@   serves C18 C16 C01
+//@   let m = ffModel(f, anyH())
+//@   let inwin = fromHeight <= anyH() && anyH() <= toHeight && m != nil && 0 <= anyI() && anyI() < old(len(m.List))
+//@   requires f != nil && f.bus != nil
+//@   requires toHeight < 18446744073709551615
+//@   requires distinct: forall h1 int, h2 int :: h1 != h2 && ffModel(f, h1) != nil ==> ffModel(f, h1) != ffModel(f, h2)
+//@   requires live: forall h int :: allocated(ffModel(f, h)) && allocated(ffModel(f, h).List)
+//@   requires wf: forall h int, i int :: ffModel(f, h) != nil && 0 <= i && i < len(ffModel(f, h).List) ==> ffModel(f, h).List[i].Value != nil && allocated(ffModel(f, h).List[i].Value) && ffModel(f, h).List[i].Value.val >= 0
+//@   ensures samelen: inwin ==> len(m.List) == old(len(m.List))
+//@   ensures slashed: inwin && old(m.List[anyI()].CandidateID) == candidateID ==> m.List[anyI()].Value.val == div(95 * old(m.List[anyI()].Value.val), 100)
+//@   ensures others: inwin && old(m.List[anyI()].CandidateID) != candidateID ==> m.List[anyI()].Value.val == old(m.List[anyI()].Value.val)
+//@   ensures fields: inwin ==> m.List[anyI()].Address == old(m.List[anyI()].Address) && m.List[anyI()].Coin == old(m.List[anyI()].Coin) && m.List[anyI()].CandidateID == old(m.List[anyI()].CandidateID) && m.List[anyI()].CandidateKey == old(m.List[anyI()].CandidateKey) && m.List[anyI()].MoveToCandidate == old(m.List[anyI()].MoveToCandidate)
+//@   assumespre CalculateSaleReturn: state invariant, not provable locally: a frozen fund's coin exists with positive volume and reserve and the fund does not exceed the coin's volume
+//@   local ff *Model
+//@   local newList []Item
+//@   loop 0 invariant lower: fromHeight <= cBlock
+//@   loop 0 invariant done: fromHeight <= anyH() && anyH() < cBlock && m != nil && 0 <= anyI() && anyI() < old(len(m.List)) ==> len(m.List) == old(len(m.List)) && allocated(m.List) && m.List[anyI()].Value != nil && allocated(m.List[anyI()].Value) && m.List[anyI()].Value.val == (old(m.List[anyI()].CandidateID) == candidateID ? div(95 * old(m.List[anyI()].Value.val), 100) : old(m.List[anyI()].Value.val)) && m.List[anyI()].Address == old(m.List[anyI()].Address) && m.List[anyI()].Coin == old(m.List[anyI()].Coin) && m.List[anyI()].CandidateID == old(m.List[anyI()].CandidateID) && m.List[anyI()].CandidateKey == old(m.List[anyI()].CandidateKey) && m.List[anyI()].MoveToCandidate == old(m.List[anyI()].MoveToCandidate)
+//@   loop 0 invariant todo: forall h int :: h >= cBlock && ffModel(f, h) != nil ==> ffModel(f, h).List == old(ffModel(f, h).List)
+//@   loop 1 invariant idx: -1 <= rangeindex && rangeindex < len(ff.List) && len(newList) == len(ff.List)
+//@   loop 1 invariant samelist: ff.List == old(ff.List)
+//@   loop 1 invariant copiedid: forall k int :: 0 <= k && k <= rangeindex ==> newList[k].CandidateID == old(ff.List[k].CandidateID)
+//@   loop 1 invariant copiedval: forall k int :: 0 <= k && k <= rangeindex ==> newList[k].Value != nil && allocated(newList[k].Value) && newList[k].Value.val == (old(ff.List[k].CandidateID) == candidateID ? div(95 * old(ff.List[k].Value.val), 100) : old(ff.List[k].Value.val))
+//@   loop 1 invariant copiedrest: forall k int :: 0 <= k && k <= rangeindex ==> newList[k].Address == old(ff.List[k].Address) && newList[k].Coin == old(ff.List[k].Coin) && newList[k].CandidateKey == old(ff.List[k].CandidateKey) && newList[k].MoveToCandidate == old(ff.List[k].MoveToCandidate)
+
+//@ # ---------------------------------------------------------------- adding and consuming funds (C16, C01)
+//@ # ASSUMED (representation axiom): GetOrNew returns the bucket of that height, creating an empty one if there is none
+//@ func (*FrozenFunds).GetOrNew
+//@   trusted
+//@   ensures result != nil && result == ffModel(f, height) && result.height == height
+//@   ensures old(ffModel(f, height)) != nil ==> result == old(ffModel(f, height))
+//@   ensures old(ffModel(f, height)) == nil ==> fresh(result) && len(result.List) == 0
+//@   modifies ffModel(f, height), ffCache
+
+//@ # one more item at the end of the bucket, holding exactly the given owner, candidate, coin, value and move target
+//@ func (*Model).addFund
+//@   serves C16 C01
+//@   let n = old(len(m.List))
+//@   requires m != nil
+//@   ensures appended: len(m.List) == n + 1 && m.List[n].Address == address && m.List[n].CandidateKey == pubkey && m.List[n].CandidateID == candidateID && m.List[n].Coin == coin && m.List[n].Value == value
+//@   ensures movetarget: (moveToCandidateID == 0 ==> len(m.List[n].MoveToCandidate) == 0) && (moveToCandidateID != 0 ==> len(m.List[n].MoveToCandidate) == 1 && m.List[n].MoveToCandidate[0] == moveToCandidateID)
+//@   ensures live: allocated(m.List) && allocated(m.List[n].MoveToCandidate)
+//@   ensures kept: forall i int :: 0 <= i && i < n ==> m.List[i] == old(m.List[i])
+//@   modifies m.List, ffDirtyMarks
+
+//@ # C16: the fund goes into the bucket of exactly the given height; C01: the ledger is told the same coin and value
+//@ func (*FrozenFunds).AddFund
+//@   serves C16 C01
+//@   let m = ffModel(f, height)
+//@   let n = old(ffModel(f, height)) == nil ? 0 : old(len(ffModel(f, height).List))
+//@   requires f != nil && f.bus != nil && value != nil
+//@   ensures bucket: m != nil && len(m.List) == n + 1 && m.List[n].Address == address && m.List[n].CandidateKey == pubkey && m.List[n].CandidateID == candidateId && m.List[n].Coin == coin && m.List[n].Value == value
+//@   ensures movetarget: (moveToCandidate == 0 ==> len(m.List[n].MoveToCandidate) == 0) && (moveToCandidate != 0 ==> len(m.List[n].MoveToCandidate) == 1 && m.List[n].MoveToCandidate[0] == moveToCandidate)
+//@   ensures live: allocated(m.List) && allocated(m.List[n].MoveToCandidate)
+//@   ensures kept: forall i int :: 0 <= i && i < n ==> m.List[i] == old(ffModel(f, height).List[i])
+//@   ensures otherheights: forall h int :: h != height ==> ffModel(f, h) == old(ffModel(f, h))
+//@   ensures reported: ledgerDelta(f.bus.checker, coin) == old(ledgerDelta(f.bus.checker, coin)) + old(value.val)
+//@   modifies ffModel(f, height), ffCache, ffDirtyMarks, ledgerDelta(f.bus.checker, coin), Model.List
+
+//@ func (*FrozenFunds).GetFrozenFunds
+//@   serves C16
+//@   requires f != nil
+//@   ensures bucket: result == ffModel(f, height)
+//@   modifies ffCache
